@@ -72,6 +72,7 @@ func c09Run(ci interface{}, rec *Rec) {
 	cur := c.Base.Clone()
 	n := cur.N
 	wasUnsat := false
+	var verdicts []string
 	nbSolves, nbAdds := 0, 0
 	for i, op := range c.Ops {
 		if op.Kind == "add" {
@@ -100,6 +101,7 @@ func c09Run(ci interface{}, rec *Rec) {
 		}
 		nbSolves++
 		rec.Count("solves", 1)
+		verdicts = append(verdicts, fmt.Sprintf("op#%d Solve=%s reference_sat=%v", i, StatusName(st), expSat))
 		switch st {
 		case solver.Sat:
 			if wasUnsat {
@@ -137,6 +139,7 @@ func c09Run(ci interface{}, rec *Rec) {
 	rec.Count("histories", 1)
 	if nbAdds >= 2 && nbSolves >= 2 {
 		rec.Interesting(JS(c.Base.Cons) + JS(c.Ops))
+		rec.Sample = map[string]interface{}{"history": c, "observed": verdicts}
 	}
 }
 
